@@ -886,6 +886,10 @@ class Eval:
                     new = T.seq(recv[1] + (args[0],))
                 self.set_place(holder, new)
                 return T.NONE
+            if meth in ("update", "extend") and len(args) == 1 and not kw:
+                # s.update(xs) / l.extend(xs): same normal form as the union / concatenation they compute
+                self.set_place(holder, ("union" if meth == "update" else "concat", recv, args[0]))
+                return T.NONE
             if meth in ("update", "extend", "remove", "insert", "clear", "pop", "sort", "reverse", "discard"):
                 self.set_place(holder, ("mut", meth, recv, tuple(args)))
                 if meth == "pop":
